@@ -42,7 +42,12 @@ def parseSessEv (s : String) : Option SessEv :=
   | _ => none
 
 def parseElem (s : String) : Option Elem :=
-  if s == "o" then some .other else (natAfter "g" s).map .good
+  if s == "o" then some .other
+  else match natAfter "g" s with           -- g<i>: key of member i announced by member i
+    | some i => some (.good i true true)
+    | none => match natAfter "f" s with     -- f<i>: announced by somebody else
+      | some i => some (.good i false true)
+      | none => (natAfter "k" s).map (fun i => .good i true false)   -- k<i>: no Publickey
 
 def parseKey (s : String) : Option (Option KeyTag) :=
   if s == "nil" then some none
